@@ -29,7 +29,13 @@ def plan(tier, seed):
 
 
 def arg_class(rng, r):
-    k = int(rng.integers(0, 5))
+    k = int(rng.integers(0, 7))
+    if k == 5 and r.size >= 6:      # a transposed (Fortran-ordered) non-symmetric 2-D view
+        m = r[: (r.size // 3) * 3].reshape(3, -1)
+        return np.ascontiguousarray(m.T).T, "float64_transposed_view"
+    if k == 6 and r.size >= 6:
+        return np.asfortranarray(r[: (r.size // 2) * 2].reshape(2, -1)), "float64_fortran"
+    k = k % 5
     if k == 0:
         return r, "float64_1d"
     if k == 1:
@@ -97,6 +103,18 @@ def run(ctx, spec):
             ctx.close("D_r0_scaling", D2 * c ** (5 / 3.), D, 1e-12 * 2 * B0ref + (canc if cls == "float32" else 0), "structure_function_vk:r0_scaling", wit, scale=2 * B0ref)
             B2 = F(turb.phase_covariance(r, r0 * c, L0))
             ctx.close("B_r0_scaling", B2 * c ** (5 / 3.), B, 8 * EPS32 * B0ref, "phase_covariance:r0_scaling", wit, scale=B0ref)
+            # the same physical situation in other length units (all lengths scaled together) gives the same numbers
+            cu = float(10 ** rng.uniform(-9, 3))
+            Du = F(sc.structure_function_vk(np.asarray(r, dtype=np.float64) * cu, r0 * cu, L0 * cu))
+            Bu = F(turb.phase_covariance(np.asarray(r, dtype=np.float64) * cu, r0 * cu, L0 * cu))
+            D64 = F(sc.structure_function_vk(np.asarray(r, dtype=np.float64), r0, L0))
+            B64 = F(turb.phase_covariance(np.asarray(r, dtype=np.float64), r0, L0))
+            cancu = 64 * 2.3e-16 * 2 * B0ref
+            ctx.close("D_unit_invariance", Du, D64, 1e-9 * Dref + cancu, "structure_function_vk:length_unit_invariance", dict(wit, unit=cu), scale=2 * B0ref)
+            ctx.close("B_unit_invariance", Bu, B64, 1e-9 * np.abs(Bref) + cancu, "phase_covariance:length_unit_invariance", dict(wit, unit=cu), scale=B0ref)
+            Dku = F(KL.stf_vonKarman(np.asarray(r, dtype=np.float64) * cu, L0 * cu)) * cu ** (-5 / 3.)    # r0 = 1 in the scaled unit is r0 = 1/cu in the old one: D scales by cu^(5/3)
+            ctx.close("KL_unit_invariance", Dku, F(sc.structure_function_vk(np.asarray(r, dtype=np.float64), 1.0, L0)), 1e-9 * vk.structure_function(rr, 1.0, L0) + 64 * 2.3e-16 * 2 * vk.variance(1.0, L0),
+                      "stf_vonKarman:length_unit_invariance", dict(wit, unit=cu), scale=2 * vk.variance(1.0, L0))
             # the KL module's copies (r in units where r0 = 1)
             Dk = F(pure_call(ctx, "stf_vonKarman", KL.stf_vonKarman, r, L0))
             D1 = F(sc.structure_function_vk(r, 1.0, L0))
